@@ -268,6 +268,21 @@ def run_case(case, ctx):
 					a.close()
 					kept.append(('sigs', b))
 					events.append('ok_other')
+				elif t == 'lock_gs':
+					# another program holds an exclusive advisory lock on the signature file (or releases it again): read-side
+					# commands may fail with a locking error meanwhile, but must not fall back to anything that writes
+					import fcntl
+					held = [h for kind, h in kept if kind == 'lockfd']
+					if held:
+						for fd in held:
+							os.close(fd)
+						kept[:] = [(kind, h) for kind, h in kept if kind != 'lockfd']
+					else:
+						fd = os.open(gs, os.O_RDONLY)
+						fcntl.flock(fd, fcntl.LOCK_EX | fcntl.LOCK_NB)
+						kept.append(('lockfd', fd))
+						classes.add('signature_file_locked_elsewhere')
+					events.append('ok_other')
 				elif t == 'close_handles':
 					for kind, h in kept:
 						try:
@@ -275,6 +290,8 @@ def run_case(case, ctx):
 								h.signatures.close(); h.session.close(); h.session.get_bind().dispose()
 							elif kind == 'session':
 								h.close(); h.get_bind().dispose()
+							elif kind == 'lockfd':
+								os.close(h)
 							else:
 								h.close()
 						except Exception:
@@ -301,6 +318,8 @@ def run_case(case, ctx):
 					h.signatures.close(); h.session.close(); h.session.get_bind().dispose()
 				elif kind == 'session':
 					h.close(); h.get_bind().dispose()
+				elif kind == 'lockfd':
+					os.close(h)
 				else:
 					h.close()
 			except Exception:
@@ -347,6 +366,7 @@ STEP = st.one_of(
 	          st.just(['flush', 'autoflush_query', 'commit']), st.booleans()),
 	st.just({'t': 'lib_open_sigs_twice'}),
 	st.just({'t': 'close_handles'}),
+	st.just({'t': 'lock_gs'}),
 	st.builds(lambda h: {'t': 'lib_writable_elsewhere', 'how': h}, st.sampled_from(['readonly_false', 'cls_session'])),
 )
 
